@@ -39,7 +39,7 @@ From SVC Require Import Base.AMap Base.Res Base.Dec Model.Types Model.Pricing
   Model.Handlers Model.EndBlock Model.Step Proofs.Inv Proofs.Lemmas Proofs.InvWf
   Proofs.DecProofs Proofs.BankLemmas Proofs.ReqLemmas Proofs.PFrame Proofs.InvBank
   Proofs.InvEarn Proofs.InvEscrow Proofs.StepSpecs_earn Proofs.InvAll Proofs.ReachRun
-  Proofs.K1Enable.
+  Proofs.K1Enable Proofs.InvSched.
 From SVC Require Proofs.QueryProofs.
 Import ListNotations.
 Open Scope Z_scope.
@@ -791,6 +791,156 @@ Theorem C20_due_sorted (q : list (Z * CtxId)) h :
   Sorted (fun a b => ctxid_leb a b = true) (due q h).
 Proof. unfold due. exact (QueryProofs.isort_sorted ctxid_leb QueryProofs.ctxid_leb_total _). Qed.
 
+
+(* ------------------------------------------------------------------ *)
+(* EndBlock with error propagation.
+
+   The strongest way to say "no dropped call fails": write the EndBlock that does NOT drop
+   anything (every lookup, slash and refund of the expiry loop is bound in the Res monad, so
+   a missing record or a failed call would surface as Err and a panic as Panic) and prove
+   that it returns Ok of exactly the state the real EndBlock computes.  The strict variants
+   are specification devices (they are not extracted); new_one contains no fallible call
+   that is dropped, so the second phase is the model's own. *)
+
+Definition expire_req_strict (cfg : Params) (s : State) (r : ReqId) : Res State :=
+  q <- of_opt (get r (reqs s)) ;;
+  rc <- of_opt (get (rid_ctx r) (ctxs s)) ;;
+  s1 <- (if c_super rc then Ok s
+         else sa <- slash cfg s r ;; of_opt (refund_fee sa r (c_cons rc) (r_fee q))) ;;
+  Ok (emit (EvExpire r) (deactivate s1 r)).
+
+Fixpoint fold_strict {A} (f : State -> A -> Res State) (l : list A) (s : State) : Res State :=
+  match l with
+  | [] => Ok s
+  | a :: t => s1 <- f s a ;; fold_strict f t s1
+  end.
+
+(* the part of expire_one after the settlement of the batch *)
+Definition expire_tail (s : State) (c : CtxId) (p : State * Ctx) : State :=
+  let '(s1, rc1) := p in
+  let H := height s in
+  let s2 := put_ctx (del_expq s1 c H) c rc1 in
+  let s3 :=
+    match c_state rc1 with
+    | Completed => del_ctx s2 c
+    | Running =>
+        if c_rep rc1 && ((c_total rc1 <? 0) || (c_counter rc1 <? c_total rc1))
+        then add_newq s2 c (wrap_i64 (H - c_timeout rc1 + to_i64 (c_freq rc1)))
+        else del_ctx s2 c
+    | Paused => s2
+    end in
+  clean_batch s3 c (c_counter rc1).
+
+Lemma expire_one_tail cfg s c :
+  expire_one cfg s c =
+  expire_tail s c
+    (if c_bdone (ctx_or_zero s c) then (s, ctx_or_zero s c)
+     else complete_batch
+            (fold_left (expire_req cfg) (active_rids s c (c_counter (ctx_or_zero s c))) s)
+            c (ctx_or_zero s c)).
+Proof. reflexivity. Qed.
+
+Definition expire_one_strict (cfg : Params) (s : State) (c : CtxId) : Res State :=
+  let rc := ctx_or_zero s c in
+  p <- (if c_bdone rc then Ok (s, rc)
+        else s' <- fold_strict (expire_req_strict cfg) (active_rids s c (c_counter rc)) s ;;
+             Ok (complete_batch s' c rc)) ;;
+  Ok (expire_tail s c p).
+
+Definition end_blocker_strict (cfg : Params) (s : State) : Res State :=
+  s1 <- fold_strict (expire_one_strict cfg) (due (expq s) (height s)) s ;;
+  Ok (fold_left (new_one cfg) (due (newq s1) (height s1)) s1).
+
+Definition end_block_strict (cfg : Params) (s : State) (dt : Z) : Res State :=
+  s1 <- end_blocker_strict cfg s ;;
+  Ok (set_time (set_height s1 (height s1 + 1)) (time s1 + dt)).
+
+(* the state machine with the strict EndBlock *)
+Definition handle_strict (cfg : Params) (s : State) (o : Op) : Res State :=
+  match o with
+  | OEndBlock dt => end_block_strict cfg s dt
+  | _ => handle cfg s o
+  end.
+
+Lemma expire_req_strict_ok cfg s r :
+  expire_req_clean cfg s r -> expire_req_strict cfg s r = Ok (expire_req cfg s r).
+Proof.
+  intros (q & rc & Gq & _ & Grc & Hc). unfold expire_req_strict, expire_req.
+  rewrite Gq, Grc. cbn [of_opt bind].
+  destruct (c_super rc); [reflexivity|].
+  destruct (Hc eq_refl) as (sa & sb & E1 & E2). rewrite E1. cbn [bind]. rewrite E2. reflexivity.
+Qed.
+
+Lemma expire_loop_strict_ok cfg l s :
+  expire_loop_clean cfg l s ->
+  fold_strict (expire_req_strict cfg) l s = Ok (fold_left (expire_req cfg) l s).
+Proof.
+  revert s. induction l as [|a l IH]; intros s H; cbn [fold_strict fold_left]; [reflexivity|].
+  destruct H as (Ha & Hl). rewrite (expire_req_strict_ok _ _ _ Ha). cbn [bind]. now apply IH.
+Qed.
+
+Lemma expire_one_strict_ok cfg s c :
+  wf_cfg cfg -> Inv cfg s -> expire_one_strict cfg s c = Ok (expire_one cfg s c).
+Proof.
+  intros Hcfg HI. rewrite expire_one_tail. unfold expire_one_strict. cbv zeta.
+  destruct (c_bdone (ctx_or_zero s c)); [reflexivity|].
+  rewrite (expire_loop_strict_ok cfg _ s (C20_expire_loop_clean cfg s c _ Hcfg HI)). reflexivity.
+Qed.
+
+Lemma expire_phase_strict_ok cfg l s :
+  wf_cfg cfg -> Inv cfg s -> height s < HEIGHT_BOUND -> NoDup l ->
+  (forall c, In c l -> In (height s, c) (expq s)) ->
+  fold_strict (expire_one_strict cfg) l s = Ok (fold_left (expire_one cfg) l s).
+Proof.
+  intros Hcfg. revert s. induction l as [|a l IH]; intros s HI Hb Hn Hl; cbn [fold_strict fold_left];
+    [reflexivity|].
+  inversion Hn as [|? ? Hna Hn']; subst.
+  assert (Hda : In (height s, a) (expq s)) by (apply Hl; now left).
+  rewrite (expire_one_strict_ok cfg s a Hcfg HI). cbn [bind].
+  pose proof (height_expire_one cfg s a Hcfg HI Hda Hb) as Eh.
+  apply IH; try assumption.
+  - now apply Inv_expire_one.
+  - now rewrite Eh.
+  - intros c Hc. rewrite Eh. apply (expq_after_expire_one cfg s a Hcfg HI Hda Hb).
+    split; [apply Hl; now right|]. intros ->. contradiction.
+Qed.
+
+(* EndBlock with nothing dropped returns Ok, and the state is the one EndBlock computes *)
+Theorem C20_end_block_strict cfg s dt :
+  wf_cfg cfg -> Inv cfg s -> height s < HEIGHT_BOUND ->
+  end_block_strict cfg s dt = Ok (end_block cfg s dt).
+Proof.
+  intros Hcfg HI Hb. unfold end_block_strict, end_blocker_strict, end_block, end_blocker.
+  rewrite (expire_phase_strict_ok cfg _ s Hcfg HI Hb).
+  - reflexivity.
+  - apply NoDup_due, (inv_wf _ _ HI).
+  - intros c. apply In_due.
+Qed.
+
+(* on every state satisfying Inv the strict machine IS the model's machine ... *)
+Theorem C20_handle_strict cfg s o :
+  wf_cfg cfg -> Inv cfg s -> wf_op s o -> handle_strict cfg s o = handle cfg s o.
+Proof.
+  intros Hcfg HI Ho. destruct o; cbn [handle_strict]; try reflexivity.
+  cbn [wf_op] in Ho. cbn [handle]. now apply C20_end_block_strict.
+Qed.
+
+(* ... so it never panics either (messages: under X-K1; EndBlock: unconditionally, and it
+   does not even return an error) *)
+Theorem C20_no_panic_strict cfg s o :
+  wf_cfg cfg -> Reach cfg s -> wf_op s o -> k1_op cfg s o -> handle_strict cfg s o <> Panic.
+Proof.
+  intros Hcfg Hr Ho Hk. pose proof (Reach_Inv cfg s Hcfg Hr) as HI.
+  rewrite C20_handle_strict by assumption. now apply C20_no_panic_msg.
+Qed.
+
+Theorem C20_end_block_never_fails cfg s dt :
+  wf_cfg cfg -> Reach cfg s -> wf_op s (OEndBlock dt) ->
+  handle_strict cfg s (OEndBlock dt) = Ok (end_block cfg s dt).
+Proof.
+  intros Hcfg Hr Ho. cbn [handle_strict]. cbn [wf_op] in Ho.
+  apply C20_end_block_strict; [assumption|now apply Reach_Inv|tauto].
+Qed.
 
 (* ------------------------------------------------------------------ *)
 (* The hypotheses are satisfiable: a concrete multi-block history with a malformed response
